@@ -68,6 +68,14 @@ class BadPickle:
             raise BrokenPipeError(errno.EPIPE, "Broken pipe (raised while pickling)")
         if self.ename == "IndexError":
             raise IndexError("index out of range (raised while pickling)")
+        if self.ename == "ConnectionResetError":
+            import errno
+
+            raise ConnectionResetError(errno.ECONNRESET, "Connection reset by peer (raised while pickling)")
+        if self.ename == "EBADF":
+            os.fstat(-1)  # OSError(EBADF), like dup() of a stale descriptor in a reducer
+        if self.ename == "TimeoutError":
+            raise TimeoutError("timed out (raised while pickling)")
         raise EXC[self.ename]("bad pickle")
 
 
@@ -102,6 +110,13 @@ def make_args(spec):
     if a is None:
         return ()
     if a[0] == "bad_pickle":
+        if a[1] == "closed_socket":
+            # loky's own socket reducer dups the descriptor: os.dup(-1) -> OSError(EBADF)
+            import socket
+
+            s = socket.socket()
+            s.close()
+            return (s,)
         return (BadPickle(a[1]),)
     if a[0] == "bad_unpickle":
         return (BadUnpickle(a[1]),)
@@ -401,6 +416,19 @@ def run(spec, tid, *extra):
             if spec.get("hang"):
                 time.sleep(spec["hang"])
             r = ["sub", tid, p.pid]
+        elif k == "churn_subprocess":
+            # owns one long-lived helper and keeps starting/reaping short-lived ones (a task shelling out in a loop):
+            # descendants vanish while a kill sweep walks the tree
+            import subprocess
+
+            keeper = subprocess.Popen(["sleep", "600"], stdin=subprocess.DEVNULL)
+            _log("subprocess_spawned", tid=tid, spid=keeper.pid, keeper=True)
+            t_end = time.monotonic() + spec.get("hang", 120)
+            while time.monotonic() < t_end:
+                procs = [subprocess.Popen(["sleep", "0.0%d" % (1 + i % 3)], stdin=subprocess.DEVNULL) for i in range(spec.get("n", 12))]
+                for p in procs:
+                    p.wait()
+            r = ["churn", tid, keeper.pid]
         elif k == "probe":
             r = ["probe", tid, _observe(spec["what"])]
         else:
@@ -442,7 +470,7 @@ def expected(spec, tid):
         return ("special", "endless")
     if k == "rendezvous":
         return ("special", "rendezvous")
-    if k == "spawn_subprocess":
+    if k in ("spawn_subprocess", "churn_subprocess"):
         return ("special", "subprocess")
     if k == "spawn_loop":
         return ("value", ["spawn_loop", tid, True])
